@@ -94,4 +94,21 @@ def scaleOf2 (o : Obj2) : Op2 → Rat
   | .globmin | .globmax => rabs o.pref * listAbsMax ((o.f.toList.map Array.toList).flatten)
   | _ => 0
 
+/-! ### a concrete square root for the drivers: exact on rational squares, otherwise rounded down to a relative
+    precision of about 2^-k (validated numerical oracle, not used by any theorem) -/
+
+def sqApprox (k : Nat) (y : Rat) : Rat :=
+  if y ≤ 0 then 0 else
+  let n := y.num.toNat
+  let d := y.den
+  let rn := Nat.sqrt n
+  let rd := Nat.sqrt d
+  if rn * rn = n ∧ rd * rd = d then (rn : Rat) / (rd : Rat)
+  else
+    let root := Nat.sqrt (n * d * 4 ^ k)
+    (root : Rat) / ((d : Rat) * (2 : Rat) ^ (k : Int))
+
+/-- the instance the drivers use -/
+def driverSqrt : SqrtFn := ⟨sqApprox 256⟩
+
 end Lp.C08
